@@ -27,7 +27,7 @@ type C17Case struct {
 var sortStrings = []string{"", "a", "b", "ab", "abc", "B", "é", "e", "z", "aa", "a ", "\x00", "ÿ", "😀", "A", "a\x00"}
 
 func GenC17(t *rapid.T) *C17Case {
-	n := []int{1, 2, 3, 4, 5, 6, 7, 8, 9, 12, 13, 16, 17, 25, 32, 33, 40, 64, 65, 100, 129, 11, 12, 13}[drawIdx(t, 24, "n")]
+	n := []int{1, 2, 3, 4, 5, 6, 7, 8, 9, 12, 13, 16, 17, 25, 32, 33, 40, 64, 65, 100, 129, 11, 12, 13, 256, 257}[drawIdx(t, 26, "n")]
 	c := &C17Case{Twice: drawBool(t, "twice"), Route: drawInt(t, 0, numListRoutes-1, "route")}
 	if drawBool(t, "seq") {
 		for i, n := 0, drawInt(t, 1, 5, "nops"); i < n; i++ {
